@@ -18,7 +18,7 @@ ALLOW = {
 }
 ALLOW_FN = {
     # function -> reason (every template of that generator function)
-    "sylvia-derive/src/contract/mt.rs::<MtHelpers<'a>>::emit_instantiate2_body": "the cosmwasm_1_2-off branch is not built (the feature matrix of DESIGN §4 is not implemented); the on-branch is covered",
+    "sylvia-derive/src/contract/mt.rs::<MtHelpers<'a>>::emit_instantiate2_body": "the cosmwasm_1_2-off branch is only built in the thorough tier's feature-matrix variant `mt-nocw12` (validated there by C12/C06); the on-branch is covered",
     "sylvia-derive/src/types/msg_type.rs::<MsgType>::emit_dispatch_leg": "the Instantiate|Migrate|Reply arm only emits an internal error",
 }
 
